@@ -2,11 +2,11 @@
    This file holds property statements only; each is closed by [exact].
    Model: model/JsEsc.v (replacement tables regenerated from the live code into gen/Tables03.v).
    Specification: spec/JsLex.v, spec/JsScript.v (whole script elements).   Proofs: proofs/JsEscProof.v, proofs/JsScriptProof.v.
-   Script parser model: model/JsTrack.v. *)
+   Script parser model: model/JsTrack.v; a process parsing one element after another: model/JsHist.v, proofs/JsHistProof.v. *)
 From Coq.Strings Require Import Byte String.
 From Coq Require Import List NArith Bool.
 Import ListNotations.
-From V Require Import lib.Bytes lib.Utf8 spec.JsLex spec.JsScript model.JsEsc model.JsTrack proofs.JsEscProof proofs.JsScriptProof.
+From V Require Import lib.Bytes lib.Utf8 spec.JsLex spec.JsScript model.JsEsc model.JsTrack model.JsHist proofs.JsEscProof proofs.JsScriptProof proofs.JsHistProof.
 
 (* ---- values placed INSIDE a string literal ('...', "..." or `...`) --------------------------------- *)
 
@@ -41,6 +41,34 @@ Proof.
   (split; [apply replace_clean|split; [apply replace_clean|split; [apply literal_closed|apply replace_roundtrip]]]).
 Qed.
 Print Assumptions C03_script_content_inside.
+
+(* The same for a value of ANY Go type: whatever bytes json.Marshal returns for it (through MarshalJSON / MarshalText
+   methods of named integer, float or bool types, struct tags, json.RawMessage, time.Time ...), and whether or not its
+   dynamic type is string.  Nothing is assumed about [marshal]: the guarantee does not rest on what JSON text looks like,
+   let alone on the value's reflect.Kind.  When json.Marshal fails nothing is emitted. *)
+Theorem C03_script_content_inside_any_type : forall (GoValue : Type) (as_string marshal : GoValue -> option bytes)
+  (v : GoValue) (q : quote) (rest : bytes),
+  match script_content_any GoValue as_string marshal true v with
+  | None => as_string v = None /\ marshal v = None
+  | Some out =>
+      exists want : bytes,
+        (as_string v = Some want \/ (as_string v = None /\ marshal v = Some want)) /\
+        clean out = true /\ has_lsps out = false /\
+        lex_string q (out ++ qbyte q :: rest) = LClosed (length out) /\
+        js_unescape q out = Some want
+  end.
+Proof. exact script_content_any_inside. Qed.
+Print Assumptions C03_script_content_inside_any_type.
+
+(* Why the pass over the marshalled text cannot be skipped for "numbers and booleans": an enum - a named int whose
+   MarshalText gives the label won't - marshals to the seven bytes "won't" (quotes included).  Emitted as they are they
+   end a '...' literal at offset 4 and a "..." literal at offset 0; through [replace] the literal closes after them. *)
+Definition jd_enum : bytes := [x22; x77; x6f; x6e; x27; x74; x22].
+Example C03_ex_marshalled_enum :
+  lex_string QSingle (jd_enum ++ [x27; x3b]) = LClosed 4 /\ lex_string QDouble (jd_enum ++ [x22; x3b]) = LClosed 0 /\
+  script_content_any bytes (fun _ => None) (fun x => Some x) true jd_enum = Some (replace jd_enum) /\
+  lex_string QSingle (replace jd_enum ++ [x27; x3b]) = LClosed (length (replace jd_enum)).
+Proof. vm_compute. repeat split; reflexivity. Qed.
 
 (* ---- values placed in script data OUTSIDE a literal, call arguments, JSON script bodies --------------- *)
 
@@ -163,6 +191,42 @@ Theorem C03_script_structure_partial : forall (vals : list bytes) (tpl : list sy
   skeleton (lex_script [] (bytes_syms (render (flags (track (tpl ++ map SB end_tag))) vals tpl))) = skeleton (lex_script vals tpl).
 Proof. exact script_structure. Qed.
 Print Assumptions C03_script_structure_partial.
+
+(* ---- a process that parses one script element after another ------------------------------------------------- *)
+(* model/JsHist.v threads the quote tracker's state through a sequence of elements as the parser meets them - the
+   elements of one file, then the next file's; complete, or cut off, or stopped by an error.  With the state born in
+   every call of Parse ([fresh]: the code as it is) the verdict on an element is the verdict [track] gives it in a fresh
+   process, whatever was parsed before - failing input included. *)
+Theorem C03_parse_history_independent : forall (before after : list (list sym)) (e : list sym),
+  verdict_after fresh before e = track e /\
+  nth (length before) (run_elements fresh None (before ++ e :: after)) [] = track e.
+Proof. intros before after e. split; [apply history_independent|apply history_independent_nth]. Qed.
+Print Assumptions C03_parse_history_independent.
+
+(* Hence the token-structure theorem holds of what a long-running process (templ generate over a directory, --watch,
+   the LSP) emits for an element, whatever it parsed before. *)
+Theorem C03_script_structure_after_history_partial : forall (before : list (list sym)) (vals : list bytes) (tpl : list sym),
+  fragment vals tpl = true ->
+  skeleton (lex_script [] (bytes_syms (render (flags (verdict_after fresh before (tpl ++ map SB end_tag))) vals tpl)))
+  = skeleton (lex_script vals tpl).
+Proof. exact script_structure_after_history. Qed.
+Print Assumptions C03_script_structure_after_history_partial.
+
+(* The statement separates the code as it is from a parser whose delimiter outlives a FAILED parse (a field of a shared
+   parser value, reset only when an element completes): after a file cut off inside a literal,  var a = 'x  , the bare
+   hole of  var b = <hole>  is flagged InsideStringLiteral and alert(1) is emitted as script text.  An element that
+   completes hides it. *)
+Definition el_cut : list sym := syms "var a = 'x".
+Definition tpl_bare : list sym := syms "var b = " ++ [SH 0].
+Example C03_history_leak_refuted :
+  fragment [bs "alert(1)"] tpl_bare = true /\
+  track (tpl_bare ++ map SB end_tag) = [FHole false; FEnd 9] /\
+  verdict_after fresh [el_cut] (tpl_bare ++ map SB end_tag) = [FHole false; FEnd 9] /\
+  verdict_after leak_on_failure [el_cut] (tpl_bare ++ map SB end_tag) = [FHole true; FEnd 9] /\
+  verdict_after leak_on_failure [syms "var a = 'x';</script>"] (tpl_bare ++ map SB end_tag) = [FHole false; FEnd 9] /\
+  toks_of (lex_script [] (bytes_syms (render [true] [bs "alert(1)"] tpl_bare))) = [TCode (bs "var b = alert(1)")] /\
+  toks_of (lex_script [bs "alert(1)"] tpl_bare) = [TCode (bs "var b = "); TStr (Some (bs "alert(1)"))].
+Proof. vm_compute. repeat split; reflexivity. Qed.
 
 (* a literal that ends in an escaped backslash, then a hole in script text: the hole is outside, the value is quoted *)
 Definition tpl_path : list sym := syms "a = ""C:\\""; b = " ++ [SH 0].
